@@ -274,6 +274,17 @@ func (e *Exec) buildCex(label string, negated *Term) map[string]any {
 	for _, u := range appTerms {
 		add(u)
 	}
+	// signature checks: which (key, message, signature) triples the model accepts; the native side produces
+	// real signatures for exactly those
+	var sigApps []*Term
+	for _, u := range all {
+		if u.Op == "pk.sigOK" {
+			sigApps = append(sigApps, u)
+			add(u)
+			add(u.Args[0])
+			add(u.Args[2])
+		}
+	}
 	r, vals := e.sol.CheckModel(negated, want)
 	if r != "sat" {
 		return nil
@@ -352,9 +363,13 @@ func (e *Exec) buildCex(label string, negated *Term) map[string]any {
 	for _, u := range blockedApps {
 		bj = append(bj, map[string]any{"id": vals[u.Args[0].SMT()], "v": vals[u.SMT()]})
 	}
+	var gj []any
+	for _, u := range sigApps {
+		gj = append(gj, map[string]any{"pk": vals[u.Args[0].SMT()], "msg": termJSON(u.Args[1], memo), "sig": vals[u.Args[2].SMT()], "v": vals[u.SMT()]})
+	}
 	return map[string]any{
 		"harness": e.harness, "label": label, "decisions": e.decisions,
-		"syms": syms, "ctors": cj, "selects": sj, "stores": stores, "apps": aj, "blocked": bj,
+		"syms": syms, "ctors": cj, "selects": sj, "stores": stores, "apps": aj, "blocked": bj, "sigs": gj,
 	}
 }
 
